@@ -5,3 +5,7 @@
 pub mod stubs;
 #[cfg(kani)]
 mod c18;
+#[cfg(kani)]
+mod c15;
+#[cfg(kani)]
+mod c17;
